@@ -1110,13 +1110,14 @@ check_c19(BatchCfg &cfg)
                                 if (entry == 1 && alg < 3)
                                         continue; // DES family has no direct single-buffer entry point
                                 for (int dir = 1; dir <= ((alg < 3 && th) ? 2 : 1); dir++)
-                                        for (int p = 0; p < pairs; p++) {
+                                        // quick: one random pair, and for the DES family two pairs with equal key parts
+                                        for (int p = 0; p < (th ? pairs : (alg < 3 ? 3 : 1)); p++) {
                                                 TrItem it;
                                                 it.cfg = cfgs[ci];
                                                 it.alg = alg;
                                                 it.dir = dir;
                                                 it.entry = entry;
-                                                it.key_kind = th ? p % 3 : 0;
+                                                it.key_kind = th ? p % 6 : (p == 0 ? 0 : p + 3);
                                                 it.key_a = r.next();
                                                 it.key_b = r.next();
                                                 if (it.key_kind == 1) { // all-zero against all-ones
@@ -1124,6 +1125,8 @@ check_c19(BatchCfg &cfg)
                                                         it.key_b = 0x5EED0001;
                                                 } else if (it.key_kind == 2) { // single set bit against random
                                                         it.key_a = 0x5EED1000 + r.below(128);
+                                                } else if (it.key_kind >= 3) { // equal key parts against random: all, K1=K2, K2=K3
+                                                        it.key_a = 0x5EED0000 + 0x1000 * (uint64_t) (it.key_kind - 1) + r.below(0x1000);
                                                 }
                                                 items.push_back(it);
                                         }
